@@ -64,6 +64,7 @@ inductive FsOp where
   | tempFile       -- any operation on a non-Spec name
   | rmdir          -- the directory is removed (with its content)
   | mkdir          -- the directory is created (empty)
+  | foreign (passing : Bool)   -- an event of another configured directory enters the (shared) queue
   deriving Repr, DecidableEq
 
 def fsStep (s : St) : FsOp → Option St
@@ -78,6 +79,7 @@ def fsStep (s : St) : FsOp → Option St
       some { s1 with dirExists := false, kwatch := false, stale := s.seen }
     else none
   | .mkdir => if s.dirExists then none else some { s with dirExists := true }
+  | .foreign passing => some { s with queue := s.queue ++ [if passing then .change else .other] }
 
 /-- `watch.update()` without a removed directory: re-add the directory if it is not tracked.
 Returns the new state and whether a refresh is due. -/
@@ -91,6 +93,7 @@ inductive CacheOp where
   | watcherTake    -- the watcher consumes the next event (filter; update under the mutex; scan pending)
   | scan           -- the pending scan runs: the snapshot becomes the current directory content
   | query          -- a query runs refreshIfRequired(false)
+  | foreignDue     -- a query whose update() re-added another directory: a refresh is due whatever this one says
   deriving Repr, DecidableEq
 
 def cacheStep (c : Cfg) (s : St) : CacheOp → Option St
@@ -109,6 +112,9 @@ def cacheStep (c : Cfg) (s : St) : CacheOp → Option St
     if s.pend then none else
     let (s1, due) := update c s
     some (if due then { s1 with pend := true } else s1)
+  | .foreignDue =>
+    if s.pend then none else
+    some { (update c s).1 with pend := true }
 
 inductive Step where
   | fs (o : FsOp)
